@@ -10,6 +10,7 @@ package asserts_test
 // at drawn points.
 
 import (
+	"bytes"
 	"errors"
 	"fmt"
 	"sort"
@@ -72,11 +73,41 @@ type verifC19 struct {
 	builtin map[string]string // identity -> encoding of the built-in assertion
 	fired   int
 	adds    int
+	quirk   bool // an assertion with a new-line-led signature block was delivered
+	dots    []string // identities with "." or ".." in the primary key that Add accepted
 }
+
+const verifC19DotClass = "fs-store-misplaces-dot-or-dotdot-primary-key"
+
+func verifHasDotPK(pk []string) bool {
+	for _, v := range pk {
+		if v == "." || v == ".." {
+			return true
+		}
+	}
+	return false
+}
+
+// fsClass attributes a failure of the filesystem store: once an assertion
+// whose primary key has a "." or ".." component was accepted, the store
+// has written it outside its directory and its listings (FindMany,
+// FindSequence) and even other identities can be affected; that is one
+// specific finding, everything else keeps the generic class.
+func (w *verifC19) fsClass(store, generic string) string {
+	if store == "fs" && len(w.dots) > 0 {
+		return verifC19DotClass
+	}
+	return generic
+}
+
+const verifC19BrokenClass = "fs-store-cannot-read-back-what-it-stored:signature-block-led-by-empty-line"
 
 func (w *verifC19) fault(k string) { w.c.Count("fault:" + k); w.fired++ }
 
-var verifOddPK = []string{"k0", "k1", "a b", "x*y", "0:z", "ü-1", "active", "#>", "k%2A", ".."}
+var verifOddPK = []string{"k0", "k1", "a b", "x*y", "0:z", "ü-1", "active", "#>", "k%2A", "..k", "k.", "-"}
+
+// verifDotPK: primary key values that are also directory entries.
+var verifDotPK = []string{"..", "."}
 
 func verifMaxFormat(t *asserts.AssertionType) int { return t.MaxSupportedFormat() }
 
@@ -169,6 +200,9 @@ func (w *verifC19) genIdentity() verifGen {
 	case 0:
 		g.t = asserts.TestOnlyType
 		pk := verifOddPK[c.Draw("pk", len(verifOddPK))]
+		if c.Chance("dot-pk", 1, 25) {
+			pk = verifDotPK[c.Draw("which-dot", 2)]
+		}
 		g.h["primary-key"] = pk
 		g.pk = []string{pk}
 		g.format = c.Draw("format", 2)
@@ -176,6 +210,12 @@ func (w *verifC19) genIdentity() verifGen {
 		g.t = asserts.TestOnly2Type
 		pk1 := []string{"a", "b*", "c d"}[c.Draw("pk1", 3)]
 		pk2 := []string{"x", "y:z"}[c.Draw("pk2", 2)]
+		if c.Chance("dot-pk", 1, 25) {
+			pk1 = verifDotPK[c.Draw("which-dot", 2)]
+			if c.Chance("dot-pk2", 1, 2) {
+				pk2 = verifDotPK[c.Draw("which-dot", 2)]
+			}
+		}
 		opt := []string{"", "o2", "0:o3"}[c.Draw("opt1", 3)]
 		g.h["pk1"], g.h["pk2"] = pk1, pk2
 		if opt != "" {
@@ -265,14 +305,16 @@ func (w *verifC19) opAdd(faults bool) {
 	good := true
 	how := "genuine"
 	if faults {
-		switch c.Draw("forge", 10) {
-		case 8:
+		switch c.Draw("forge", 40) {
+		case 8, 18, 28:
 			signer = w.keys["stray"] // a key the databases never heard of
 			good = false
 			how = "signed-by-unknown-key"
 			w.fault("add-signed-by-unknown-key")
-		case 9:
+		case 9, 19, 29:
 			how = "foreign-signature"
+		case 7:
+			how = "empty-line-before-signature-via-stream"
 		}
 	}
 	a := verifMustSign(c, signer, g.t, g.h, body)
@@ -289,6 +331,20 @@ func (w *verifC19) opAdd(faults bool) {
 		w.fault("add-with-foreign-signature")
 	}
 	label := fmt.Sprintf("%s rev%d fmt%d tag=%s %s", id, rev, g.format, g.h["tag"], how)
+	if how == "empty-line-before-signature-via-stream" {
+		// the same signed content and signature bytes, one stray new line
+		// between them, read through the stream decoder
+		content, sig := a.Signature()
+		wire := append(append(append([]byte(nil), content...), '\n', '\n', '\n'), sig...)
+		d, err := asserts.NewDecoder(bytes.NewReader(wire)).Decode()
+		w.fault("add-of-stream-decoded-assertion-with-stray-new-line")
+		if err != nil {
+			c.Logf("add %s -> rejected by the stream decoder", label)
+			return
+		}
+		a = d
+		w.quirk = true
+	}
 	w.add(label, a, good)
 }
 
@@ -363,6 +419,10 @@ func (w *verifC19) add(label string, a asserts.Assertion, good bool) {
 			e.seq = sm.Sequence()
 		}
 		m.fmts[format] = e
+		if verifHasDotPK(m.pk) {
+			w.dots = append(w.dots, id)
+			c.Count("probe:dot-primary-key-stored")
+		}
 		if len(m.fmts) > 1 {
 			c.Count("probe:identity-stored-in-several-formats")
 		}
@@ -455,16 +515,27 @@ func (w *verifC19) checkFind(t *asserts.AssertionType, pk []string, filter map[s
 
 func (w *verifC19) compareOne(store, what string, got asserts.Assertion, err error, want, wantLabel string) {
 	switch {
+	case err != nil && !verifIsNotFound(err) && w.quirk && store == "fs" && strings.Contains(err.Error(), "broken assertion storage"):
+		w.violate(verifC19BrokenClass, "%s: %s fails after an Add that both stores accepted (the memory store still answers): %s", store, what, verifNoPath(err))
 	case err != nil && !verifIsNotFound(err):
-		w.violate("lookup-failed", "%s: %s fails: %v", store, what, err)
+		w.violate(w.fsClass(store, "lookup-failed"), "%s: %s fails: %v%s", store, what, verifNoPath(err), w.dotNote())
 	case err != nil && want != "":
-		w.violate("find-not-highest", "%s: %s says not found, the highest revision added is %s", store, what, wantLabel)
+		w.violate(w.fsClass(store, "find-not-highest"), "%s: %s says not found, the highest revision added is %s%s", store, what, wantLabel, w.dotNote())
 	case err == nil && want == "":
-		w.violate("find-not-highest", "%s: %s returns revision %d of %s, expected nothing (%s)", store, what, got.Revision(), verifIdentity(got), wantLabel)
+		w.violate(w.fsClass(store, "find-not-highest"), "%s: %s returns revision %d of %s, expected nothing (%s)%s", store, what, got.Revision(), verifIdentity(got), wantLabel, w.dotNote())
 	case err == nil && string(asserts.Encode(got)) != want:
-		w.violate("find-not-highest", "%s: %s returns revision %d format %d, the highest revision added is %s", store, what, got.Revision(), got.Format(), wantLabel)
+		w.violate(w.fsClass(store, "find-not-highest"), "%s: %s returns revision %d format %d, the highest revision added is %s%s", store, what, got.Revision(), got.Format(), wantLabel, w.dotNote())
 	}
 }
+
+func (w *verifC19) dotNote() string {
+	if len(w.dots) == 0 {
+		return ""
+	}
+	return fmt.Sprintf(" [stored earlier: %v]", w.dots)
+}
+
+func verifNoPath(err error) string { return verifErrClass(err) }
 
 func (w *verifC19) opFind() {
 	c := w.c
@@ -580,7 +651,7 @@ func (w *verifC19) opFindMany() {
 	for i, db := range w.st.dbs() {
 		got, err := db.FindMany(t, h)
 		if err != nil && !verifIsNotFound(err) {
-			w.violate("lookup-failed", "%s: FindMany(%s %v) fails: %v", w.st.names[i], t.Name, hs, err)
+			w.violate(w.fsClass(w.st.names[i], "lookup-failed"), "%s: FindMany(%s %v) fails: %s%s", w.st.names[i], t.Name, hs, verifNoPath(err), w.dotNote())
 			continue
 		}
 		var encs []string
@@ -594,7 +665,7 @@ func (w *verifC19) opFindMany() {
 				revs = append(revs, fmt.Sprintf("%s@%d", verifIdentity(a), a.Revision()))
 			}
 			sort.Strings(revs)
-			w.violate("find-many-mismatch", "%s: FindMany(%s %v) returns %d assertions %v, the model has %d current assertions matching", w.st.names[i], t.Name, hs, len(got), revs, len(want))
+			w.violate(w.fsClass(w.st.names[i], "find-many-mismatch"), "%s: FindMany(%s %v) returns %d assertions %v, the model has %d current assertions matching%s", w.st.names[i], t.Name, hs, len(got), revs, len(want), w.dotNote())
 		}
 	}
 }
@@ -661,13 +732,13 @@ func (w *verifC19) opFindSequence() {
 func (w *verifC19) compareOneSeq(store, what string, got asserts.Assertion, err error, want, wantLabel string) {
 	switch {
 	case err != nil && !verifIsNotFound(err):
-		w.violate("lookup-failed", "%s: %s fails: %v", store, what, err)
+		w.violate(w.fsClass(store, "lookup-failed"), "%s: %s fails: %s%s", store, what, verifNoPath(err), w.dotNote())
 	case err != nil && want != "":
-		w.violate("find-sequence-mismatch", "%s: %s says not found, expected %s", store, what, wantLabel)
+		w.violate(w.fsClass(store, "find-sequence-mismatch"), "%s: %s says not found, expected %s%s", store, what, wantLabel, w.dotNote())
 	case err == nil && want == "":
-		w.violate("find-sequence-mismatch", "%s: %s returns %s revision %d, expected nothing", store, what, verifIdentity(got), got.Revision())
+		w.violate(w.fsClass(store, "find-sequence-mismatch"), "%s: %s returns %s revision %d, expected nothing%s", store, what, verifIdentity(got), got.Revision(), w.dotNote())
 	case err == nil && string(asserts.Encode(got)) != want:
-		w.violate("find-sequence-mismatch", "%s: %s returns %s revision %d format %d, expected %s", store, what, verifIdentity(got), got.Revision(), got.Format(), wantLabel)
+		w.violate(w.fsClass(store, "find-sequence-mismatch"), "%s: %s returns %s revision %d format %d, expected %s%s", store, what, verifIdentity(got), got.Revision(), got.Format(), wantLabel, w.dotNote())
 	}
 }
 
